@@ -197,6 +197,97 @@ class SliceWidthLite(Contract):
     posts = property(lambda self: [("width", lambda eng, st0, st, a, res: res.z == W(a.self.z))])
 
 
+BCOMPAT = z3.Function("bundles_compatible", z3.IntSort(), z3.IntSort(), z3.BoolSort())
+
+
+class BundlesCompatible(Contract):
+    """check_bundles_compatible(bundle, other): ASSUMED here (loops over member dictionaries; decided by the fault
+    family): returns Valid only if BCOMPAT(bundle, other)."""
+    key = "hdl21.elab.passes.conntypes:ConnTypes.check_bundles_compatible"
+    pure = False
+    raises = (RuntimeError, ValueError)
+    returns = "ref"
+    result_classes = (Valid, InvalidType)
+
+    def scenarios(self, eng):
+        return []
+    posts = property(lambda self: [("valid=>compatible", lambda eng, st0, st, a, res: z3.Implies(
+        st.heap.get("$cls", res.z) == st.classid(Valid), BCOMPAT(a.bundle.z, a.other.z))
+        if isinstance(a.bundle, SRef) and isinstance(a.other, SRef) else True)])
+
+
+class SignalsCompatibleCallee(SignalsCompatible):
+    """as proved above, for use at call sites with any `sig` / `other`"""
+    def scenarios(self, eng):
+        return []
+
+    def p_sound(self, eng, st0, st, a, res):
+        is_valid = st.heap.get("$cls", res.z) == st.classid(Valid)
+        if not isinstance(a.other, SRef) or not all(issubclass(k, HASWIDTH) for k in eng.classes_of(st0, a.other)):
+            return z3.Not(is_valid)
+        return z3.Implies(is_valid, W(a.sig.z) == W(a.other.z))
+    posts = property(lambda self: [("valid=>equal-widths", self.p_sound)])
+
+
+class CheckCompatible(Contract):
+    """check_compatible(port, conn) returns Valid only if: conn is connectable, and either the port has a width and
+    conn has the same width, or the port is a bundle instance and conn is bundle-compatible with its type.  (Bundle
+    references are first resolved: recursion, abstracted by the contract itself.)"""
+    key = "hdl21.elab.passes.conntypes:ConnTypes.check_compatible"
+    props = ("C02",)
+    pure = False
+    recursive = True
+    raises = (RuntimeError, ValueError)
+    returns = "ref"
+    result_classes = (Valid, InvalidType)
+
+    def scenarios(self, eng):
+        from hdl21.module import Module as _M
+        ports = {"signal-port": (Signal,), "bundle-port": (BundleInstance,)}
+        conns = {"has-width": (Signal, Slice, Concat), "bundle": (BundleInstance,), "anon": (AnonymousBundle,),
+                 "not-connectable": (_M, Instance)}
+        for pn, pc in ports.items():
+            for cn, cc in conns.items():
+                def setup(eng, st, pc=pc, cc=cc):
+                    eng.field_classes.update(FIELD_CLASSES)
+                    eng.field_classes["of"] = (Bundle,)
+                    me = sym_ref(st, "self", (ConnTypes,))
+                    port = sym_ref(st, "port", pc)
+                    if pc == (BundleInstance,):
+                        of = st.heap.get("of", port.z)
+                        st.assume(z3.And(of != NULL, st.heap.get("$alive", of),
+                                         st.heap.get("$cls", of) == st.classid(Bundle)))
+                    return {"self": me, "port": port, "conn": sym_ref(st, "conn", cc)}
+                yield Scenario(f"{pn}<-{cn}", setup)
+
+    def p_sound(self, eng, st0, st, a, res):
+        is_valid = st.heap.get("$cls", res.z) == st.classid(Valid)
+        pcl, ccl = eng.classes_of(st0, a.port), eng.classes_of(st0, a.conn)
+        if not all(getattr(k, "__connectable__", False) for k in ccl):
+            return z3.Not(is_valid)
+        if all(issubclass(k, Signal) for k in pcl):
+            if not all(issubclass(k, HASWIDTH) for k in ccl):
+                return z3.Not(is_valid)
+            return z3.Implies(is_valid, W(a.port.z) == W(a.conn.z))
+        of = st0.heap.get("of", a.port.z)
+        same_type = st0.heap.get("of", a.conn.z) == of if all(issubclass(k, BundleInstance) for k in ccl) else False
+        anon = all(issubclass(k, AnonymousBundle) for k in ccl)     # accepted as such (member checks come later)
+        return z3.Implies(is_valid, z3.Or(BCOMPAT(of, a.conn.z), zbool(same_type), z3.BoolVal(anon)))
+    posts = property(lambda self: [("valid=>compatible", self.p_sound)])
+
+
+def compat_engine():
+    from hdl21.bundle import Bundle as _B
+    globals()["Bundle"] = _B
+    contracts = [GetWidth(), c_elab.Fail(), ConcatWidth(), SliceWidthLite(), SignalsCompatibleCallee(),
+                 BundlesCompatible()]
+    return mk_engine(contracts=contracts, field_classes=FIELD_CLASSES,
+                     inline={"hdl21.connect:is_connectable"})
+
+
+VERIFY_COMPAT = [CheckCompatible()]
+
+
 def engine():
     contracts = [GetWidth(), c_elab.Fail(), ConcatWidth(), SliceWidthLite()] + VERIFY
     eng = mk_engine(contracts=contracts, field_classes=FIELD_CLASSES)
